@@ -117,7 +117,7 @@ for _k in range(5):
         bound="states %d..%d x 22 message shapes x both directions x all 256x256 alert bytes; payload contents minimal (<= 2 bytes) - content-independence is the Verus unit's job" % (5 * _k, 5 * _k + 4))
 
 
-HOOK_COMMITS = ["f298937"]
+HOOK_COMMITS = ['f298937', '1eed035', '68b5220']
 
 NOT_APPLICABLE = {
     "C18": "feature-matrix / build-configuration facts (does the crate build under a feature set, does compile_error! fire, are types Send+Sync, is there unsafe): decided by rustc and cargo over configurations; no pre/postcondition on a function expresses them and neither Verus nor Kani reasons across cfg sets",
